@@ -1,0 +1,20 @@
+//go:build verif
+
+package nts
+
+// Contracts for the verification machinery in /verif (comment-only; not compiled without the tag "verif").
+
+// b is an arbitrary datagram; the loop over extension fields must make progress on every input.
+//@ func DecodePacket
+//@   requires pkt != nil
+//@   modifies *pkt, pkt.Cookies[:], pkt.CookiePlaceholders[:]
+//@   allocates
+//@   loop 0 invariant pos >= 48
+//@   loop 0 invariant regionof(pkt.Cookies) == old(regionof(pkt.Cookies)) || fresh(pkt.Cookies)
+//@   loop 0 invariant regionof(pkt.CookiePlaceholders) == old(regionof(pkt.CookiePlaceholders)) || fresh(pkt.CookiePlaceholders)
+//@   loop 0 decreases len(b)-pos
+
+//@ func (*Packet).FirstCookie
+//@   requires pkt != nil
+//@   ensures some: (result1 == nil) == (len(pkt.Cookies) != 0)
+//@   ensures first: result1 == nil ==> sameslice(result0, pkt.Cookies[0].Cookie)
